@@ -94,7 +94,9 @@ def check(chk, sc, out, deviation):
         chk.mismatch(tag + ":contributions-sum", desc + ": contributions sum to %r, total %r" % (sum(got_c), g), payload)
         return
     # the same through neg_log_likelihood(...) if available, and variance rescaling
-    if not deviation and total_n:
+    if not deviation and total_n and quad_sum == 0:
+        chk.no_claim += 1       # the data equal their predictions exactly: the maximum-likelihood scale is 0 and the concentrated likelihood unbounded
+    elif not deviation and total_n:
         try:
             m2, res2, info2, _ = run_filter(sc, out, rescale=True)
             scale_exp = quad_sum / total_n
